@@ -1,9 +1,51 @@
 """C05 - ill-formed programs are never turned into a runnable artifact (DESIGN 5/C05): driver gates."""
 META = {
     "level": "proof",
-    "trusted_base": ["contracts/gate_contracts.h"],
-    "assumptions": [],
-    "undecided_part": "",
+    "trusted_base": [
+        "contracts/gate_contracts.h: the ghost struct __verif_gate, the GATE_OPEN precondition of every writer/executor and the "
+        "contracts virt_main / compile_file / nanoc_main (harness/gate_virt_h.c, harness/gate_nanoc_h.c), written from the property statement",
+        "tools/annotate.py inserting only loop-contract clauses (sidecars contracts/loops/nanovirt_main.c.loops, main.c.gate.loops)",
+    ],
+    "assumptions": [
+        "STRENGTH: driver control flow only.  Every callee of nano_virt `main` and of nanoc `compile_file` is cut at its interface: "
+        "nondeterministic result, effect recorded in __verif_gate (stub bodies in contracts/gate_contracts.h = assumed contracts; "
+        "stub bodies instead of --replace-call-with-contract because DFCC builds a write set per replaced call: 985 s vs 15 s)",
+        "cut callees, nano_virt main: tokenize parse_program process_imports type_check create_environment create_module_list "
+        "clear_module_cache typecheck_set_current_file free_ast free_tokens free_environment free_module_list codegen_compile "
+        "nvm_serialize wrapper_generate wrapper_generate_daemon nvm_verify vm_init vm_execute vm_get_result vm_destroy vm_error_string "
+        "vm_ffi_init vm_ffi_set_env vm_ffi_load_module vm_ffi_shutdown nvm_get_string nvm_module_free; libc: fopen fwrite fread fseek "
+        "ftell fclose strcmp strncmp strlen printf fprintf.  Kept as REAL code: main, read_file, usage, has_nvm_extension; malloc/free = CBMC models",
+        "cut callees, compile_file (in addition): nl_list_CompilerDiagnostic_new/push/free type_check_module nanocore_trust_report "
+        "nanocore_print_trust_report nanocore_free_trust_report nanocore_function_trust nanocore_export_sexpr nanocore_reference_eval "
+        "emit_module_reflection compile_modules ffi_init ffi_load_module ffi_cleanup module_load_metadata module_metadata_free load_module "
+        "run_shadow_tests transpile_to_c getenv setenv unsetenv strrchr snprintf free(no-op); contract-REPLACED (goto-instrument): "
+        "llm_emit_diags_json llm_emit_diags_toon (static helpers: they write the --llm-diags-* diagnostics file, by design on failure "
+        "paths; a diagnostics file is not counted as an artifact) and strdup (fresh writable object).  Kept as REAL code: compile_file, diags_push_simple",
+        "the list of WRITERS/EXECUTORS is complete: fopen in a mode other than r/rb, fwrite to a stream other than stdout/stderr, system, "
+        "wrapper_generate, wrapper_generate_daemon, emit_module_reflection, compile_modules (cc on imported C modules), nvm_serialize, "
+        "codegen_compile, transpile_to_c, run_shadow_tests (interpreter runs program code), vm_execute, vm_call_function.  Assumed to "
+        "write no artifact and run no program code: process_imports, load_module, module_load_metadata, ffi_init, ffi_load_module and "
+        "vm_ffi_load_module (dlopen of module shared libraries, after the type-check gate), the nanocore_* analyses",
+        "PATH CUT (C05.gate.nanoc): the stub of transpile_to_c ends the path (__CPROVER_assume(0)) after asserting GATE_OPEN and "
+        "'type checker and shadow tests ran exactly once'.  Covered: compile_file from entry up to and including that call.  The rest "
+        "(temp .c file, generic-list wrappers, cc command line, system()) is reachable only through that call: compile_file has no "
+        "goto/label/setjmp and calls transpile_to_c once at its top nesting level (checked textually by cut_is_structural on every run; "
+        "if it fails the harness does not compile -> undecided)",
+        "ftell() >= 0 on the source file just opened (compile_file does not test it; with -1 it writes source[-1]: memory safety, not this unit)",
+        "cbmc --no-standard-checks: memory safety of the driver code itself is NOT checked here; reads through unconstrained pointers "
+        "(argv strings, AST items, module tables) yield arbitrary values (over-approximation); every WRITE is still checked against the "
+        "frame by DFCC",
+        "loop over the 9-row static const table known_modules[] (nano_virt main loop 5, after the gate): no decreases clause, i.e. "
+        "partial correctness for that one loop (DFCC havocs static locals at every loop head, so the {NULL,NULL} terminator is not "
+        "available to the proof); all other loops have invariant + decreases",
+        "names changed by the harness, no code: main -> virt_main / nanoc_main",
+    ],
+    "undecided_part": "Completeness of the type checker's rule catalogue is NOT decided (that every ill-typed program makes "
+                      "type_check return false; the known arity-mismatch diagnostic that does not set has_error lives there) - only "
+                      "'a phase reports failure => non-zero status, nothing written, built, generated or run'.  'Reports a diagnostic' "
+                      "is not observed (messages are variadic fprintf calls; a variadic stub cannot carry a ghost write under DFCC).  "
+                      "Imported modules: process_imports type-checks them inside the cut callee.  The part of compile_file behind "
+                      "transpile_to_c is not symbolically executed (see PATH CUT).",
 }
 VIRT = "harness/gate_virt_h.c"
 VIRT_ANN = [("src/nanovirt/main.c", "contracts/loops/nanovirt_main.c.loops")]
